@@ -35,7 +35,7 @@ TMAX, TMIN = 10.0, 0.01
 # flux mismatch allowed, relative to the larger flux:  K_FLUX * delta * gamma_+^2 gamma_-^2,
 # delta = rtol + atol/T the relative accuracy requested from the root finders.  Calibrated on
 # the unchanged tree (see report): worst observed ratio 3.2 -> margin factor ~8
-K_FLUX = 25.0
+K_FLUX = 8.0
 
 
 # ------------------------------------------------------------------------------------
@@ -246,17 +246,19 @@ def admissible(th, Tp, Tm):
     return eH != eL and eH + pL > 0 and eL + pH > 0
 
 
-def exact_matching_exists(h, vw, n=48):
+def exact_matching_exists(h, vw, n=64):
     """scan the shooting residual Tn(vp) - Tn of findMatching over vp: a sign change means
-    an exact deflagration/hybrid matching exists for this wall velocity"""
-    vpmin = 0.05 * min(h.vBracketLow, vw)      # independent of the code's own bracket
-    vpmax = min(vw, float(h.thermodynamics.csqHighT(h.Tnucl)) / vw)
+    an exact deflagration/hybrid matching exists for this wall velocity.  The scan does not
+    reuse the code's own bracket: vp runs from 5% of the bracket floor up to vw, keeping the
+    points where the shock is ahead of the wall (vp vw <= cs^2(T+))."""
+    vpmin = 0.05 * min(h.vBracketLow, vw)
     vals = []
     for k in range(n + 1):
-        vp = vpmin + (vpmax - vpmin) * k / n
+        vp = vpmin + (vw - vpmin) * k / n
         try:
             _, _, Tp, _ = h.matchDeflagOrHyb(vw, vp)
-            if not h.success:
+            if not h.success or not vp * vw <= float(h.thermodynamics.csqHighT(Tp)) * (
+                    1 + 1e-9):
                 continue
             d = h.solveHydroShock(vw, vp, Tp) - h.Tnucl
         except Exception:
@@ -267,6 +269,64 @@ def exact_matching_exists(h, vw, n=48):
         if da * db < 0:
             return True, (a, b)
     return False, None
+
+
+def refine_exact(h, vw, bracket):
+    """exact deflagration/hybrid matching from a bracket of the shooting residual"""
+    from scipy.optimize import brentq
+
+    def f(vp):
+        _, _, Tp, _ = h.matchDeflagOrHyb(vw, vp)
+        return h.solveHydroShock(vw, vp, Tp) - h.Tnucl
+    try:
+        vps = brentq(f, bracket[0], bracket[1], xtol=1e-13, rtol=1e-12)
+        r = [float(x) for x in h.matchDeflagOrHyb(vw, vps)]
+        return r if h.success else None
+    except Exception:
+        return None
+
+
+def check_template_class(ctx, case, th, h, vw):
+    """the closed-form template solver on a template equation of state: its own matching
+    and boundary constants conserve both fluxes exactly (up to rounding and the 1e-100
+    regularisation), whatever the accuracy of its shooting root"""
+    ht = h.template
+    if vw < ht.vMin:
+        return
+    try:
+        m = ht.findMatching(vw)
+        hb = ht.findHydroBoundaries(vw)
+    except Exception as ex:
+        ctx.count("raised", bucket="template:" + type(ex).__name__)
+        return
+    if m[0] is None:
+        ctx.count("template_no_solution")
+        return
+    vp, vm, Tp, Tm = (float(x) for x in m)
+    ctx.count("template_class_matching", dict(case=case, vw=vw),
+              bucket="detonation" if vw > ht.vJ else "deflagration/hybrid")
+    e1, e2, m1, m2 = fluxes(th, vp, vm, Tp, Tm)
+    tol = 1e-9 / ((1 - vp * vp) * (1 - vm * vm))
+    re_ = abs(e1 - e2) / max(abs(e1), abs(e2))
+    rm_ = abs(m1 - m2) / max(abs(m1), abs(m2))
+    c1, c2 = float(hb[0]), float(hb[1])
+    bad = None
+    if re_ > tol:
+        bad = ("template solver: energy flux %.12g in front, %.12g behind (rel %.3g)" % (
+            e1, e2, re_), "template-energy-flux")
+    elif rm_ > tol:
+        bad = ("template solver: momentum flux %.12g in front, %.12g behind (rel %.3g)" % (
+            m1, m2, rm_), "template-momentum-flux")
+    elif abs(c1 + e1) > 1e-9 * abs(e1) or abs(c1 + e2) > 2 * tol * abs(e1):
+        bad = ("template solver: c1 = %.12g, energy flux %.12g | %.12g" % (c1, e1, e2),
+               "template-c1")
+    elif abs(c2 - m1) > 1e-9 * abs(m1) or abs(c2 - m2) > 2 * tol * abs(m1):
+        bad = ("template solver: c2 = %.12g, momentum flux %.12g | %.12g" % (c2, m1, m2),
+               "template-c2")
+    if bad:
+        ctx.fail_input("%s [vw=%.6g]" % (bad[0], vw), dict(
+            case=case, vw=vw, solver="template", returned=[vp, vm, Tp, Tm],
+            fluxes=[e1, e2, m1, m2], boundaries=[c1, c2], what_fails=bad[0]), key=bad[1])
 
 
 def wall_velocities(rng, h, n):
@@ -340,7 +400,19 @@ def check_point(ctx, case, th, h, vw, stats=None):
         rec["none"] = True
         return rec
     rec.update(vp=vp, vm=vm, Tp=Tp, Tm=Tm, fallback=spy.fallback, success=success)
+    if 0 <= vp <= 10 * h.atol and branch != "detonation":
+        # edge of existence (vw -> shock-limited vMin): v+ -> 0 and T- ~ v+^(1/nu) is
+        # infinitely sensitive; a v+ below the absolute tolerance carries no information
+        ctx.count("degenerate_edge_skipped")
+        return rec
     label.update(returned=[vp, vm, Tp, Tm])
+    if h.vMin > h.vBracketLow and vw < 1.02 * h.vMin and Tm > 0 and not (
+            float(th.csqLowT(Tm)) > 0 and float(th.wLowT(Tm)) > 0):
+        # at a shock-limited vMin the exact solution has T- -> TMinHydro; if the equation of
+        # state is not physical there (w <= 0 or cs^2 <= 0) the point is outside the
+        # quantifier ("positive sound speeds")
+        ctx.count("edge_outside_eos_domain_skipped")
+        return rec
     bad = None
     if not (0 < vp < 1 and 0 < vm < 1 and Tp > 0 and Tm > 0):
         bad = ("returned values out of range", "range")
@@ -414,9 +486,22 @@ def check_point(ctx, case, th, h, vw, stats=None):
             exists, where = exact_matching_exists(h, vw)
             rec["fallback_exact_exists"] = exists
             if exists:
-                bad = ("template fallback returned for vw=%.6g although an exact matching "
-                       "exists (shooting residual changes sign for vp in %r)" % (vw, where),
-                       "fallback")
+                # an approximation was returned instead of it?  (on a template equation of
+                # state the fallback is itself exact)
+                ex = refine_exact(h, vw, where)
+                if ex is not None:
+                    dev = max(abs(a - b) / max(abs(b), 1e-300) for a, b in zip(
+                        (vp, Tp, Tm), (ex[0], ex[2], ex[3])))
+                    d = h.rtol + h.atol / min(ex[0], ex[2], ex[3]) + h.rtol / max(
+                        abs(ex[2] / h.Tnucl - 1), 1e-12)
+                    tolx = K_FLUX * d / ((1 - ex[0] ** 2) * (1 - ex[1] ** 2))
+                    rec["fallback_dev"] = dev
+                    if dev > tolx:
+                        bad = ("template fallback returned for vw=%.6g although an exact "
+                               "matching exists: exact (vp,Tp,Tm)=(%.9g,%.9g,%.9g), returned "
+                               "(%.9g,%.9g,%.9g), rel. deviation %.3g > %.3g" % (
+                                   vw, ex[0], ex[2], ex[3], vp, Tp, Tm, dev, tolx),
+                               "fallback")
         elif not success:
             bad = ("Hydrodynamics.success is False after findMatching(vw=%.6g) inside "
                    "[vMin, 0.99]" % vw, "not-converged")
@@ -669,6 +754,8 @@ def run(ctx):
         for vw in wall_velocities(rng, h, nvw):
             try:
                 check_point(ctx, case, th, h, vw, stats)
+                if case["kind"] == "template":
+                    check_template_class(ctx, case, th, h, vw)
             except Exception:
                 ctx.log("harness exception at", json.dumps(case), vw,
                         traceback.format_exc())
@@ -732,6 +819,14 @@ def replay(rep):
     case, vw = rep["case"], rep["vw"]
     th = build_model(case)
     h = make_hydro(th, rep.get("rtol", RTOL), rep.get("atol", ATOL))
+    if rep.get("solver") == "template":
+        r = h.template.findMatching(vw)
+        print("template.findMatching(%r) = %r" % (vw, r))
+        e1, e2, m1, m2 = fluxes(th, *map(float, r))
+        print("energy flux   %.15g | %.15g" % (e1, e2))
+        print("momentum flux %.15g | %.15g" % (m1, m2))
+        print("template.findHydroBoundaries", h.template.findHydroBoundaries(vw))
+        return 0
     r = h.findMatching(vw)
     print("vJ=%r vMin=%r findMatching(%r) = %r success=%r" % (h.vJ, h.vMin, vw, r,
                                                               h.success))
